@@ -96,7 +96,7 @@ def collect(rep, runs, rules, wheres=None, rename=None, only_entry=None):
         for s in r.I.sites:
             if not _match(s.rule, rules):
                 continue
-            if wheres is not None and s.where not in wheres:
+            if wheres is not None and not where_match(s.where, wheres):
                 continue
             rule = rename.get(s.rule, s.rule) if rename else s.rule
             detail = s.detail
@@ -109,6 +109,24 @@ def collect(rep, runs, rules, wheres=None, rename=None, only_entry=None):
                     file=s.mod.path if s.mod else None, facts=s.facts)
             n += 1
     return n
+
+
+def where_match(where, wheres):
+    """Is the site's function one of the anchored functions, or a private
+    helper (leading underscore / nested def) of a module that holds one?  A
+    helper extracted from an anchored function stays in scope."""
+    if where in wheres:
+        return True
+    parts = where.split('.')
+    mods = {w.split('.')[0] for w in wheres}
+    if parts[0] not in mods or len(parts) < 2:
+        return False
+    for k in range(2, len(parts)):
+        if '.'.join(parts[:k]) in wheres:
+            return True     # nested def / method of an anchored function
+    if parts[0] == 'utils':
+        return False        # shared helpers: claimed where they are listed
+    return parts[1].startswith('_') and not parts[1].startswith('__')
 
 
 def _match(rule, rules):
